@@ -13,6 +13,8 @@ pred partHandled(p, data) := dom(data, p.field) && data[p.field] != nil && ite(p
 
 func tryFastCompare
   props C12 C05 C17 C06 C13
+  atreturn a-numeric-shortcut-carries-the-column-operator-and-number-written: result != nil && !result.isString ==> result.field == m[1] && result.op == m[2] && err == nil && result.numLit == n
+  atreturn a-text-shortcut-carries-the-column-operator-and-text-written: result != nil && result.isString ==> result.field == m__2[1] && result.op == m__2[2] && result.strLit == m__2[3]
   ensures literal-exactly-representable: result != nil ==> fcOK(result)
 
 func compareNum
@@ -103,6 +105,9 @@ func (*ExprCondition).Evaluate
   observe fastOK := eval#1
   before Run the-general-evaluator-is-handed-the-compiled-program-and-this-row-and-nothing-kept-from-earlier-rows: $arg0 == ec.program && $arg1 == env
   atreturn a-row-the-shortcut-declines-is-decided-by-the-general-evaluator: (ec.compound == nil && ec.fast == nil) || !$fastOK ==> $ran == 1
+  observe runRes := Run
+  observe runErr := Run#1
+  atreturn the-general-evaluators-answer-is-the-answer-and-its-failure-is-false: $ran == 1 ==> ite($runErr == nil, result == boolval($runRes), !result)
   atreturn a-row-the-shortcut-decides-never-reaches-the-general-evaluator: (ec.compound != nil || ec.fast != nil) && $fastOK ==> $ran == 0
 
 func matchesLikePattern
